@@ -108,6 +108,20 @@ def probe(ctx: Ctx, live: Live, ty: int, payload: bytes, pclass: str) -> None:
             v_("C12/undefined-id-answered", f"client wrote {[r['name'] for r in new_rx]}")
         if state != "CONNECTED" or len(v.fatals) != n_fatal:
             v_("C12/undefined-id-closed-connection", f"state {state}, fatal {[repr(f[2])[:80] for f in v.fatals[n_fatal:]]}")
+            return
+        # "no other effect" includes what comes next: a defined message and a peer request behind the undefined frame are handled as ever
+        n_log2, n_rx2 = len(live.log), len(dconn.received)
+        canary = live.pb.SensorStateResponse(key=ty & 0xFFFFFFF, state=1.5)
+        dconn.send_msg(canary)
+        dconn.send_msg(live.pb.PingRequest())
+        sim.run_for(0.001)
+        res.count("probe/undefined-id/followed-by-defined-traffic")
+        got2 = [x for _, x in live.log[n_log2:]]
+        if live.record_all and [type(x).__name__ for x in got2] != ["SensorStateResponse", "PingRequest"]:
+            v_("C12/undefined-id-affected-later-messages", f"messages sent right after the undefined frame reached subscribers as {[type(x).__name__ for x in got2]} "
+               "(expected the state message and the ping request)")
+        if [r["name"] for r in dconn.received[n_rx2:]] != ["PingResponse"]:
+            v_("C12/undefined-id-affected-later-requests", f"a PingRequest sent right after the undefined frame was answered with {[r['name'] for r in dconn.received[n_rx2:]]}")
         return
     cls = getattr(live.pb, m.name)
     ref = cls()
@@ -591,6 +605,56 @@ def bad_payload_without_subscriber(ctx: Ctx) -> None:
                                           f"{live.conn.connection_state.name}, first fatal {first!r}; expected CLOSED with ProtocolAPIError", case, trace=sim.trace(25))
 
 
+def bad_payload_while_disconnecting(ctx: Ctx) -> None:
+    """An undecodable payload of a known type arrives while the client's own graceful disconnect() is waiting for its acknowledgement (the
+    session is still up): it closes the connection with a protocol error all the same - recorded as the cause, and seen by whoever waits."""
+    from aioesphomeapi.core import ProtocolAPIError
+
+    res = ctx.res
+    idx = 0
+    for framing in ("plain", "noise"):
+        for with_request in (False, True):
+            for gap in (0.01, 0.5):
+                idx += 1
+                if not ctx.mine(idx):
+                    continue
+                with Sim() as sim:
+                    cfg = DeviceConfig()
+                    if framing == "noise":
+                        cfg.noise_psk = PSK
+                    cfg.handlers["DisconnectRequest"] = lambda c, m: c.send("DisconnectResponse", _delay=5.0)
+                    cfg.handlers["DeviceInfoRequest"] = lambda c, m: None
+                    dev = sim.device(cfg)
+                    kw = {"noise_psk": base64.b64encode(PSK).decode()} if framing == "noise" else {}
+                    cli = sim.client(keepalive=1e5, **kw)
+                    c0 = sim.call("connect", lambda: cli.connect(on_stop=sim.on_stop_cb(), login=False))
+                    sim.run(until=lambda: c0.done, max_time=sim.clock + 50)
+                    if c0.outcome != "ok":
+                        res.inconclusive.append(f"bad payload while disconnecting: connect failed {c0.exc!r}")
+                        continue
+                    req = sim.call("device_info", lambda: cli.device_info()) if with_request else None
+                    sim.run_for(0.01)
+                    d = sim.call("disconnect", lambda: cli.disconnect())
+                    sim.run_for(gap)
+                    dev.conn.send_id(25, b"\x0d\x01", 0.0)      # SensorStateResponse with a truncated fixed32
+                    sim.run_for(1.0)
+                    v = sim.conns[0]
+                    res.evaluations += 1
+                    res.count("workload/bad-payload-while-disconnecting")
+                    res.sig("badpb-disc", framing, with_request, gap)
+                    case = {"framing": framing, "bad_payload_while_disconnecting": True, "request_pending": with_request, "gap": gap}
+                    recorded = v.fatal_sets[0][3] if v.fatal_sets else None
+                    if v.obj.connection_state.name != "CLOSED":
+                        res.violation("C12/undecodable-not-closed", f"{framing}: undecodable payload during a pending disconnect(): state {v.obj.connection_state.name}", case, trace=sim.trace(40))
+                    if not isinstance(recorded, ProtocolAPIError):
+                        res.violation("C12/undecodable-not-protocol-error", f"{framing}: undecodable payload of a known type while disconnect() was waiting: recorded cause of the "
+                                      f"close is {recorded!r}, expected ProtocolAPIError", case, trace=sim.trace(40))
+                    if req is not None and req.done and not isinstance(req.exc, ProtocolAPIError):
+                        res.violation("C12/undecodable-not-protocol-error", f"{framing}: the request pending at that moment failed with {req.exc!r}, expected the protocol error", case,
+                                      trace=sim.trace(40))
+                    sim.run(until=lambda: d.done, max_time=sim.clock + 20)
+
+
 def close_inside_delivery(ctx: Ctx) -> None:
     """The connection is closed from INSIDE the delivery of a message - by the library's own handler (a DisconnectRequest with application
     subscribers registered for that type too) or by a subscriber that force-disconnects: every subscriber registered for the type at that
@@ -658,6 +722,7 @@ def shard(ctx: Ctx) -> None:
     histories(ctx)
     peer_requests_during_connect(ctx)
     close_inside_delivery(ctx)
+    bad_payload_while_disconnecting(ctx)
 
 
 def replay(spec: dict[str, Any]) -> int:
